@@ -1,6 +1,7 @@
 import PqModel.DeltaProofs
 import PqModel.DeltaGoProofs
 import PqModel.DeltaKernel
+import PqModel.DeltaUnpack
 
 /-! # C04 (part DELTA) — DELTA_BINARY_PACKED, DELTA_LENGTH_BYTE_ARRAY and DELTA_BYTE_ARRAY are
 lossless and conform to the format, for every input.
@@ -215,5 +216,35 @@ theorem delta32_roundtrip_wordlevel (xs : List (BitVec 32)) :
 theorem delta64_roundtrip_wordlevel (xs : List (BitVec 64)) :
     specDecode64 (mirrorEncodeK xs) = .ok (xs, []) := by
   rw [mirrorEncodeK64_eq]; exact delta64_roundtrip xs
+
+/-! ## The unpacking kernels the decoders call: `bitpack.Unpack` (portable) = LSB-first unpacking -/
+
+/-- `bitpack.Unpack` for int64 (portable `unpackInt64`, github.com/parquet-go/bitpack
+unpack_int64_purego.go:5-27, transliterated in PqModel/DeltaUnpack.lean: 32-bit words, a value
+assembled from up to three of them) returns what `Bits.unpackBits` — the function the decoder
+mirror `goMinis` and the spec decoder are written with — returns, for every width up to 64, any
+number of values that fit the buffer, any buffer content. -/
+theorem unpack64_kernel (w n : Nat) (p : List Nat) (hw : w ≤ 64) (hb : ∀ b ∈ p, b < 256)
+    (hn : n * w ≤ 8 * p.length) : goUnpackInt64 w n p = PqModel.Bits.unpackBits w n (PqModel.Bits.bytesToBits p) :=
+  goUnpackInt64_eq w n p hw hb hn
+
+/-- INT32 twin: the kernel is shared with the RLE decoder and proved in the RLE slice
+(`PqModel.Rle.goUnpackInt32_eq`); restated here because `decodeInt32` depends on it. -/
+theorem unpack32_kernel (w n : Nat) (p : List Nat) (hw : w ≤ 32) (hb : ∀ b ∈ p, b < 256)
+    (hn : n * w ≤ 8 * p.length) :
+    PqModel.Rle.goUnpackInt32 w n p = PqModel.Bits.unpackBits w n (PqModel.Bits.bytesToBits p) :=
+  PqModel.Rle.goUnpackInt32_eq w n p hw hb hn
+
+example : (61 : Nat) ≤ 64 ∧ (∀ b ∈ List.replicate 16 0xA7, b < 256) ∧ 2 * 61 ≤ 8 * (List.replicate 16 0xA7).length := by
+  decide
+
+/-- The hypothesis `n * w ≤ 8 * p.length` holds for every call the decoders make: a miniblock of
+`vpm` values (a multiple of 8, since it is a multiple of 32) at width `w` is given `vpm * w / 8`
+bytes (completed with zeros when the input is shorter) and `cnt ≤ vpm` values are read. -/
+theorem unpack_call_fits (vpm w cnt : Nat) (data : List Nat) (h8 : vpm % 8 = 0) (hc : cnt ≤ vpm)
+    (hl : data.length = vpm * w / 8) : cnt * w ≤ 8 * data.length :=
+  mini_fits vpm w cnt data h8 hc hl
+
+example : (32 : Nat) % 8 = 0 ∧ 7 ≤ 32 ∧ (List.replicate 12 0).length = 32 * 3 / 8 := by decide
 
 end PqModel.Props.C04Delta
